@@ -431,3 +431,88 @@ package rapid
 //@   requires [C14] unlocked(t)
 //@   ensures [C02,C14] result == (t.failed != "") && unlocked(t)
 //@   modifies lockmode[addr(t.mu)]
+
+//@ define cleaning(t) = t.cleaning.v != 0
+//@ define sameOrNewArr(t) = arr(t.cleanups) == old(arr(t.cleanups)) || fresh(arr(t.cleanups))
+//@ define ctxInv(t) = (t.ctx == nil) == (t.cancelCtx == nil) && implies(t.cancelCtx != nil, ctxOf[t.cancelCtx] == t.ctx)
+//@ define clean(t) = t.failed == "" && len(t.cleanups) == 0 && t.ctx == nil && t.cancelCtx == nil && !cleaning(t)
+
+//@ func (*T).Errorf
+//@   requires [C14] unlocked(t)
+//@   ensures [C02,C14] t.failed != "" && unlocked(t)
+//@   modifies t.failed, lockmode[addr(t.mu)]
+//@ func (*T).Error
+//@   requires [C14] unlocked(t)
+//@   ensures [C02,C14] t.failed != "" && unlocked(t)
+//@   modifies t.failed, lockmode[addr(t.mu)]
+//@ func (*T).Fail
+//@   requires [C14] unlocked(t)
+//@   ensures [C02,C14] t.failed != "" && unlocked(t)
+//@   modifies t.failed, lockmode[addr(t.mu)]
+//@ func (*T).Fatalf
+//@   requires [C14] unlocked(t)
+//@   ensures false
+//@   panics stopTest [C02]: t.failed != "" && strOf(panicval) == t.failed && unlocked(t)
+//@   modifies t.failed, lockmode[addr(t.mu)]
+//@ func (*T).Fatal
+//@   requires [C14] unlocked(t)
+//@   ensures false
+//@   panics stopTest [C02]: t.failed != "" && strOf(panicval) == t.failed && unlocked(t)
+//@   modifies t.failed, lockmode[addr(t.mu)]
+//@ func (*T).FailNow
+//@   requires [C14] unlocked(t)
+//@   ensures false
+//@   panics stopTest [C02]: t.failed != "" && strOf(panicval) == t.failed && unlocked(t)
+//@   modifies t.failed, lockmode[addr(t.mu)]
+//@ func (*T).Skipf
+//@   ensures false
+//@   panics invalidData [C02]: true
+//@ func (*T).Skip
+//@   ensures false
+//@   panics invalidData [C02]: true
+//@ func (*T).SkipNow
+//@   ensures false
+//@   panics invalidData [C02]: true
+
+//@ func (*T).Cleanup
+//@   requires [C14] unlocked(t)
+//@   ensures [C10,C14] len(t.cleanups) == old(len(t.cleanups)) + 1 && t.cleanups[old(len(t.cleanups))] == f && unlocked(t)
+//@   ensures [C10,C14] forall(k, 0, old(len(t.cleanups)), t.cleanups[k] == old(t.cleanups[k]))
+//@   ensures [C10] sameOrNewArr(t)
+//@   modifies t.cleanups, elems(t.cleanups), lockmode[addr(t.mu)]
+
+//@ func (*T).Context
+//@   requires [C14] unlocked(t) && ctxInv(t)
+//@   ensures [C10,C14] result != nil && unlocked(t) && ctxInv(t)
+//@   ensures [C10,C14] implies(old(t.ctx) != nil, result == old(t.ctx) && t.ctx == old(t.ctx) && t.cancelCtx == old(t.cancelCtx))
+//@   ensures [C10,C14] implies(old(t.ctx) == nil && !cleaning(t), t.ctx == result && !cancelled[result])
+//@   ensures [C10,C14] implies(old(t.ctx) == nil && cleaning(t), t.ctx == nil && t.cancelCtx == nil && cancelled[result])
+//@   modifies t.ctx, t.cancelCtx, lockmode[addr(t.mu)]
+
+// A cleanup callback runs while its T is in the cleanup phase: the context has already been cancelled and cleared,
+// the lock is not held. It may register further cleanups (append only), fail the test case, draw, and panic.
+//@ callback func()
+//@   params fn
+//@   uses t
+//@   requires [C10] t.ctx == nil && t.cancelCtx == nil && cleaning(t)
+//@   requires [C14] unlocked(t)
+//@   ensures len(t.cleanups) >= old(len(t.cleanups)) && forall(k, 0, old(len(t.cleanups)), t.cleanups[k] == old(t.cleanups[k]))
+//@   ensures implies(old(t.failed) != "", t.failed != "") && drawn >= old(drawn) && unlocked(t) && sameOrNewArr(t)
+//@   panics any: len(t.cleanups) >= old(len(t.cleanups)) && implies(old(t.failed) != "", t.failed != "") && drawn >= old(drawn) && unlocked(t) && sameOrNewArr(t)
+//@   modifies t.failed, t.cleanups, elems(t.cleanups), t.draws, drawn
+
+//@ func (*T).cleanup
+//@   requires [C10,C14] unlocked(t) && ctxInv(t)
+//@   ensures [C10,C11] len(t.cleanups) == 0 && t.ctx == nil && t.cancelCtx == nil && !cleaning(t)
+//@   ensures [C14] unlocked(t)
+//@   ensures [C10] implies(old(t.ctx) != nil, cancelled[old(t.ctx)])
+//@   ensures [C02] implies(old(t.failed) != "", t.failed != "")
+//@   ensures [C10] sameOrNewArr(t)
+//@   panics any [C10,C11]: sameOrNewArr(t) && len(t.cleanups) == 0 && t.ctx == nil && t.cancelCtx == nil && !cleaning(t) && unlocked(t) && implies(old(t.ctx) != nil, cancelled[old(t.ctx)]) && implies(old(t.failed) != "", t.failed != "")
+//@   modifies t.failed, t.cleanups, elems(t.cleanups), t.ctx, t.cancelCtx, t.cleaning.v, t.draws, drawn, cancelled[t.ctx], lockmode[addr(t.mu)]
+//@   loop 0 invariant [C10,C14] unlocked(t) && t.ctx == nil && t.cancelCtx == nil && cleaning(t)
+//@   loop 0 invariant [C10] implies(old(t.ctx) != nil, cancelled[old(t.ctx)]) && implies(old(t.failed) != "", t.failed != "") && sameOrNewArr(t)
+
+//@ func newT
+//@   ensures [C10,C11] fresh(result) && clean(result) && unlocked(result)
+//@   ensures [C04,C10] result.s == s && result.tbLog == tbLog && result.tb != nil
